@@ -57,6 +57,13 @@ def gen_case(rng):
         case["calls"].append({"n": m, "dur": [0.0] * m})
     if "overlap_after" in call:
         case["calls"].append({"n": 3, "dur": [0.0] * 3, "phantom": True})
+    if rng.random() < 0.06:
+        # focus: a short first call whose tasks complete while the caller is still dispatching, then a long call on the
+        # same object -- nothing of the first call's dispatch bookkeeping may count for the second
+        n1 = rng.choice([2, 3, 4, 6, 8]); n2 = rng.choice([20, 30, 40])
+        case["calls"] = [{"n": n1, "dur": [0.0] * n1}, {"n": n2, "dur": [rng.choice([0.05, 0.3]) for _ in range(n2)]}]
+        if isinstance(case.get("n_jobs"), int) and case["n_jobs"] in (0, 1):
+            case["n_jobs"] = 3
     case["strategy"] = ds.draw_strategy(rng)
     case["sched_seed"] = rng.randrange(1 << 31)
     case["max_steps"] = 600000
@@ -155,6 +162,10 @@ def consumer(w, s, p, c, gen, rec):
     rec["outcome"] = {"kind": "closed", "t": s.now}
 
 
+STRICT_AFTER_FAILURE = True
+STRICT_FLAVOURS = ("T", "M", "L", "G", "Gm")
+
+
 def oracle(w, s):
     v = pc.engine_verdict(w, s)
     if v:
@@ -194,7 +205,7 @@ def oracle(w, s):
             # retrieves the job, so its deliveries carry no information)
             b = max(w.b_cfg, 1) * (2 if case["batch_size"] == "auto" else 1)
             extra = w.pulled[c] - rec.get("pulled_at_failure", 0)
-            if extra > nj * b:
+            if extra > (0 if STRICT_AFTER_FAILURE and case["flavour"] in STRICT_FLAVOURS else nj * b):
                 return V("pulls_after_failure", "call %d: %d more items were taken from the input after a task failure had been "
                          "delivered (one look-ahead slice = n_jobs %d x batch %d)" % (c, extra, nj, b))
         if rec.get("pulls_after_over"):
